@@ -82,9 +82,12 @@ theorem typeCheck1_unmarkDeep (req : Ty) {x : Value} (hx : x.isMarked = false) :
 
 /-! ### arithmetic, comparison, logic: results never carry a mark … -/
 
-theorem rangeArith_clean (op : Num → Num → Res Num) (a b : Value) : (rangeArith op a b).All Clean := by
-  unfold rangeArith
+theorem rangeArithC_clean (corner : Option Num → Option Num → Option Num) (a b : Value) :
+    (rangeArithC corner a b).All Clean := by
+  unfold rangeArithC
   repeat (first | apply Res.All.bind; intro _ | exact Res.All.pure (clean_numRangeResult _ _))
+theorem rangeArith_clean (op : Num → Num → Res Num) (a b : Value) : (rangeArith op a b).All Clean :=
+  rangeArithC_clean _ a b
 
 /-- walk a `do`-block whose leaves are `pure (numVal _)`, `pure (boolVal _)`, `pure unkBool`, … -/
 macro "clean_walk" : tactic => `(tactic|
@@ -107,14 +110,14 @@ macro "clean_walk" : tactic => `(tactic|
 
 theorem addU_clean (a b : Value) : (addU a b).All Clean := by unfold addU; clean_walk
 theorem subU_clean (a b : Value) : (subU a b).All Clean := by unfold subU; clean_walk
-theorem mulU_clean (a b : Value) : (mulUC a b).All Clean := by
-  unfold mulUC
+theorem mulU_clean (a b : Value) : (mulU a b).All Clean := by
+  unfold mulU
   apply Res.All.bind; intro _
   split
   · clean_walk
   · apply Res.All.ite <;> intro _
     · exact Res.All.pure rfl
-    · exact rangeArith_clean _ _ _
+    · exact rangeArithC_clean _ _ _
 theorem divU_clean (a b : Value) : (divU a b).All Clean := by unfold divU; clean_walk
 theorem negU_clean (a : Value) : (negU a).All Clean := by unfold negU; clean_walk
 theorem absU_clean (a : Value) : (absU a).All Clean := by
@@ -155,13 +158,13 @@ variable {x y : Value} (hx : x.isMarked = false) (hy : y.isMarked = false)
 include hx hy
 
 theorem addU_strip : addU x.unmarkDeep y.unmarkDeep = addU x y := by
-  simp only [addU, rangeArith, typeCheck2_unmarkDeep _ hx hy, asNum_unmarkDeep hx, asNum_unmarkDeep hy,
+  simp only [addU, rangeArith, rangeArithC, typeCheck2_unmarkDeep _ hx hy, asNum_unmarkDeep hx, asNum_unmarkDeep hy,
     range_unmarkDeep hx, range_unmarkDeep hy]
 theorem subU_strip : subU x.unmarkDeep y.unmarkDeep = subU x y := by
-  simp only [subU, rangeArith, typeCheck2_unmarkDeep _ hx hy, asNum_unmarkDeep hx, asNum_unmarkDeep hy,
+  simp only [subU, rangeArith, rangeArithC, typeCheck2_unmarkDeep _ hx hy, asNum_unmarkDeep hx, asNum_unmarkDeep hy,
     range_unmarkDeep hx, range_unmarkDeep hy]
-theorem mulU_strip : mulUC x.unmarkDeep y.unmarkDeep = mulUC x y := by
-  simp only [mulUC, rangeArith, typeCheck2_unmarkDeep _ hx hy, asNum_unmarkDeep hx, asNum_unmarkDeep hy,
+theorem mulU_strip : mulU x.unmarkDeep y.unmarkDeep = mulU x y := by
+  simp only [mulU, rangeArithC, typeCheck2_unmarkDeep _ hx hy, asNum_unmarkDeep hx, asNum_unmarkDeep hy,
     range_unmarkDeep hx, range_unmarkDeep hy, rawEqualsZero_unmarkDeep hx, rawEqualsZero_unmarkDeep hy]
 theorem divU_strip : divU x.unmarkDeep y.unmarkDeep = divU x y := by
   simp only [divU, typeCheck2_unmarkDeep _ hx hy, asNum_unmarkDeep hx, asNum_unmarkDeep hy]
